@@ -11,7 +11,7 @@ CHECKS = {
         "byte doubling as terminator at full capacity; no derived-length read follows a possibly growing publication or terminator overwrite in any mutator; every defaulted parameter of the member "
         "declarations equals [basic.string]'s; iterator insert/erase/replace mutate for every ordering of valid positions incl. end() and empty ranges; conversions to std::string/streams pass "
         "(data(), size()); the 30 relational overloads and compare_impl realise the 3-way ordering; clamps and offsets use the object the position was validated against; the published length is "
-        "the checked one; cursor + remaining count is invariant in the find loops.",
+        "the checked one; cursor + remaining count is invariant in the find loops; traits compare/find over the own buffer end at or before size(); forwarding overloads call their own worker with every parameter.",
    note="Search results, shifted characters, copy/substr counts and stream extraction are not decided; trusts sa/ceval.py, sa/flow.py and the default-argument table transcribed from [basic.string]."),
  "C02": dict(level="other", design="4.2",
    technique="checks-before-effects path rule with a may-throw summary over the member call graph, guard-dominance (same-object) rule for position offsets and size subtractions by linear entailment, published-equals-checked rule, derived-length-after-publication typestate, exception-type/threshold tables",
@@ -19,14 +19,14 @@ CHECKS = {
         "check or call to a member that may throw is evaluated after the first length publication or character write of the body; every position parameter offset into X or subtracted from X.size() is "
         "dominated by check_index[_strict] against the same X or a branch entailing pos <= X.size(); every published length is exactly a policy-check result, a same-capacity size or 0, adjust_size only "
         "shrinks; no offset is computed from a re-derived length after a growing publication; every character write's destination range is proven inside [0,N] by linear arithmetic from the checks on its path; check_size throws length_error exactly for size > N, check_index out_of_range exactly for pos >= size, "
-        "check_index_strict = check_index(pos, size+1), at() checks first. Read extents, source/destination aliasing and the silent policy are NOT decided.",
+        "check_index_strict = check_index(pos, size+1), at() checks first; the storage array has N+1 elements; reads of the own buffer in the search/compare family end at or before size(). Read extents, source/destination aliasing and the silent policy are NOT decided.",
    note="Trusts the event tables in sa/fstring.py (which calls write characters, which publish a length) and sa/linear.py; iterator parameters are assumed to point into *this."),
  "C05": dict(level="other", design="4.5",
    technique="abstract-variant typestate interpretation of the lifetime machinery over the template patterns (calls followed, visit_alt/visit_alt_at applied to their lambdas, exceptional successors at every element operation, try/catch rollback), relational truth tables against [variant.relops], guard-dominance rules for get/get_if/visit/hash, case-label/alternative agreement of the instantiated dispatch switches",
    text="Decides structural necessary conditions on the template patterns (hence for every alternative set): destroy, generic_construct, emplace, assign_alt (both functor branches), assign, "
         "generic_assign, swap incl. its rollback, copy/move constructors and assignments and the destructor are simulated on abstract variants {valueless, holds alt 0, holds alt 1} with an "
         "exceptional successor at every element construction/assignment/swap/temporary; at every normal and exceptional exit each variant is valueless with no live alternative or holds exactly "
-        "the alternative its index names, nothing is constructed over a live alternative or destroyed twice, local variants are destroyed, and results carry the requested/source index; the "
+        "the alternative its index names, nothing is constructed over a live alternative or destroyed twice, local variants are destroyed, results carry the requested/source index, and conditional noexcept-specifications require a nothrow trait for every element operation the simulated body can raise from; the "
         "index/valueless primitives, base constructors, construct_alt and the destroy visitor have their defining shape; the six relational operators match [variant.relops] for every "
         "valueless/index-order scenario incl. functor and operand order; get/get_if/visit/hash reach an alternative only under their guard; the 32-way dispatch switches of a 40-alternative "
         "instantiation dispatch the alternative of their label. Element constructors running exactly once inside construct_alt, converting-constructor overload selection and value equality with std::variant are NOT decided.",
@@ -48,7 +48,7 @@ CHECKS = {
         "mask/primitives equal their defining formulas for every bit offset (folded with clang's recorded promotions/conversions, shift-width UB reported); each block move of "
         "<<= / >>= displaces bits by exactly pos, stays inside [0,last], and moved ranges + zero fill tile the buffer; at() throws out_of_range exactly for i >= size(); "
         "front/back/[0]/[count-1] need a dominating non-emptiness fact; the buffer is sized ceil(size/W) wherever size is set; resize(n,true) patches the old last block; "
-        "no block comparison is decided by integer promotion. Bit values produced by operation histories are NOT decided.",
+        "no block comparison is decided by integer promotion; whole-buffer loops run over blocks 0..block_count()-1; the popcount table and the bit-reference assignment operators are folded exactly. Bit values produced by operation histories are NOT decided.",
    note="Assumes callers respect pos < size() for unchecked single-bit operations and equal sizes for blockwise operators; a restructured shift algorithm is reported as analysis-broken (exit 2), not as a violation; trusts sa/flow.py, sa/ceval.py, sa/linear.py."),
  "C17": dict(level="other", design="4.15",
    technique="pattern-level discipline rules on canonicalised bodies (parameters/locals renamed) of every dispatcher and visitor function; linear entailment for the grow-only resize",
